@@ -3,8 +3,41 @@
     call_built_in_function): 2 = _লিস্ট-পুশ, 3 = _লিস্ট-পপ, 4 = _লিস্ট-লেন.  [only_list_changed h h' a l']: list a
     holds l' and every other list, every record, the free lists and the allocation counter are unchanged. *)
 From Pakhi Require Import Base Float64 Syntax Tables Lexer Interp.
-From Pakhi.Proofs Require Import ListOps TableFacts.
+From Pakhi.Proofs Require Import ListOps TableFacts ListHistory.
 Local Open Scope nat_scope.
+
+(* ANY history of the five operations, written as built-in calls on the list an alias holds (address [a]): the slot holds the
+   sequence obtained by folding the abstract operations ([seq_step]: append, insert-at shifts the tail right, remove-last,
+   remove-at shifts it left, length) over the initial one; rejected operations are errors that change nothing; every other
+   list, every record, the output and the variables are untouched *)
+Theorem C16_any_history : forall code a ops m l, nth_error (h_lists (m_heap m)) a = Some l ->
+  let m' := run_ops code a ops m in
+  nth_error (h_lists (m_heap m')) a = Some (seq_run ops l) /\
+  (forall b, b <> a -> nth_error (h_lists (m_heap m')) b = nth_error (h_lists (m_heap m)) b) /\
+  h_recs (m_heap m') = h_recs (m_heap m) /\ length (h_lists (m_heap m')) = length (h_lists (m_heap m)) /\
+  m_out m' = m_out m /\ m_scopes m' = m_scopes m.
+Proof. exact history. Qed.
+Print Assumptions C16_any_history.
+
+Theorem C16_length_after_any_history : forall code a ops m l, nth_error (h_lists (m_heap m)) a = Some l ->
+  builtin_op code 4 [VList a] (run_ops code a ops m) = Ok (VNum (f_of_nat (length (seq_run ops l))), run_ops code a ops m).
+Proof. exact length_after_history. Qed.
+Print Assumptions C16_length_after_any_history.
+
+(* each operation against its specification, including the rejected ones *)
+Theorem C16_each_operation_meets_its_specification : forall code a o m l, nth_error (h_lists (m_heap m)) a = Some l ->
+  match seq_step l o with
+  | Some l' => exists v m', builtin_op code (fst (op_call a o)) (snd (op_call a o)) m = Ok (v, m') /\ same_but_heap m m' /\
+                            only_list_changed (m_heap m) (m_heap m') a l' /\ (o = LLen -> v = VNum (f_of_nat (length l)))
+  | None => exists e, builtin_op code (fst (op_call a o)) (snd (op_call a o)) m = Err e
+  end.
+Proof. exact op_step. Qed.
+Print Assumptions C16_each_operation_meets_its_specification.
+
+Example C16_history_instance :
+  let one := VNum (f_of_nat 1) in let two := VNum (f_of_nat 2) in let three := VNum (f_of_nat 3) in
+  seq_run [LAppend one; LAppend three; LInsert (f_of_nat 1) two; LRemove (f_of_nat 7); LPopLast; LRemove (f_of_nat 0); LLen] [] = [two].
+Proof. vm_compute. reflexivity. Qed.
 
 Theorem C16_append : forall code m a l, nth_error (h_lists (m_heap m)) a = Some l -> forall v,
   exists m', builtin_op code 2 [VList a; v] m = Ok (VNil, m') /\ same_but_heap m m' /\
